@@ -371,6 +371,8 @@ sstat MainSolver::solve() {
     for (PTRef tr : logic.propFormulasAppearingInUF) {
         Lit l = term_mapper->getOrCreateLit(tr);
         smt_solver->addVar(var(l));
+        // The theory solver needs the value of these variables even if they occur in no clause: never eliminate them
+        smt_solver->setFrozen(var(l), true);
     }
 
     vec<FrameId> en_frames;
